@@ -8,9 +8,25 @@ import "github.com/openebs/jiva/zzmodel"
 func ZZSymbolicController(rf int) *Controller {
 	e := zzSymbolicEnvReg(rf, true)
 	// arbitrary chains / checkpoint on the replicas and the controller
+	// the chain each replica reports: empty when it was closed behind the controller's
+	// back (s.r == nil: a restarted or closed replica not yet noticed by its monitor),
+	// head only, or chains of different lengths
+	normal := []string{"volume-head-001.img", "volume-snap-a.img"}
+	long := []string{"volume-head-002.img", "volume-snap-b.img", "volume-snap-a.img"}
+	headOnly := []string{"volume-head-001.img"}
+	scenarios := [][][]string{
+		{normal, normal, normal},
+		{{}, normal, normal},
+		{normal, {}, normal},
+		{headOnly, long, normal},
+		{long, headOnly, normal},
+		{normal, long, long},
+	}
+	sc := scenarios[zzConcretize(zzChoice("chains", len(scenarios)))]
 	for i := 0; i < e.n; i++ {
 		m := zzmodel.Replicas[zzAddrs[i]]
-		m.Chain = []string{"volume-head-001.img", "volume-snap-a.img"}
+		m.Chain = sc[i%3]
+		m.Checkpoint = zzPick("cp."+zzHosts[i], "", "volume-snap-a.img", "volume-snap-zz.img")
 	}
 	if e.n == rf && zzNondetBool("has-checkpoint") {
 		e.c.Checkpoint = "volume-snap-a.img"
